@@ -28,6 +28,7 @@ func init() {
 			m.newAssertChecker(s).Run("R-ASSERT", fns)
 			m.RunPrefixKW(s, "R-PREFIXKW")
 			m.RunTruthUsers(s, "R-TRUTH")
+			m.RunEvalErr(s, "R-EVALERR") // a failing condition / body / sub-expression fails the render instead of being treated as a value
 			s.RequireMin("R-LOOP", 20, "2 loop evaluators x ~9 clauses, block statement clauses")
 		},
 	})
